@@ -199,9 +199,9 @@ def run_property(modname, tier, seed, replay=None, procs=None):
             report['notes'].append('source watch failed: %s' % e)
         if ch:
             report['source_changed'] = ch
-            budget = float(os.environ.get('VERIF_WIDEN_S', '480'))
+            budget = float(os.environ.get('VERIF_WIDEN_S', '240'))
             k = 0
-            while (k < int(os.environ.get('VERIF_WIDEN_SEEDS', '6')) and time.time() - t_start < budget
+            while (k < int(os.environ.get('VERIF_WIDEN_SEEDS', '4')) and time.time() - t_start < budget
                    and not any(not match_known(pid, v, known) for r in results for v in r.get('violations', []))):
                 k += 1
                 extra = [('w%d:%s' % (k, cid), scn) for cid, scn in mod.scenarios(seed + 7919 * k, tier)]
